@@ -101,22 +101,94 @@ def ConcOk (H : History) (S : List Region) (hbs : List (Region × Verdict)) (S' 
   NoOverlap S' ∧ NoRegress H S' ∧ S' ∈ reachable hbs.length S hbs
 instance (H S hbs S') : Decidable (ConcOk H S hbs S') := inferInstanceAs (Decidable (_ ∧ _ ∧ _))
 
+/-! ### batched region storage (leveldb with a write batch): what is on disk lags behind -/
+
+/-- storage on disk after a heartbeat that displaced `gone`, when saves go through a write batch: the displaced
+    ids are gone from disk at once, nothing else is deleted, and whatever appears or changes on disk (a flush of
+    the batch) belongs to a region that is served -/
+def StoredOkBatched (S' : List Region) (M M' : List (Nat × Meta)) (gone : List Region) : Prop :=
+  (∀ y ∈ gone, lookup M' y.id = none) ∧
+  (∀ e ∈ M, (∀ y ∈ gone, y.id ≠ e.1) → lookup M' e.1 ≠ none) ∧
+  (∀ e ∈ M', lookup M e.1 = some e.2 ∨ ∃ y ∈ S', y.id = e.1)
+instance (S' : List Region) (M M' : List (Nat × Meta)) (gone : List Region) : Decidable (StoredOkBatched S' M M' gone) :=
+  inferInstanceAs (Decidable (_ ∧ _ ∧ _))
+
+/-- one heartbeat at a time, batched storage -/
+def StepOkBatched (H : History) (S : List Region) (M : List (Nat × Meta)) (r : Region) (v : Verdict)
+    (S' : List Region) (M' : List (Nat × Meta)) : Prop :=
+  NoOverlap S' ∧ NoRegress H S' ∧
+  (MustReject S r → v = .stale) ∧
+  (v = .stale → S' = S ∧ M' = M) ∧
+  (v = .ok → (S' = S ∧ StoredOkBatched S' M M' []) ∨ (S' = put S r ∧ StoredOkBatched S' M M' (displaced S r)))
+instance (H S M r v S' M') : Decidable (StepOkBatched H S M r v S' M') :=
+  inferInstanceAs (Decidable (_ ∧ _ ∧ _ ∧ _ ∧ _))
+
+/-- an explicit flush of the batch: nothing is deleted, what appears or changes belongs to a served region -/
+def FlushOk (S : List Region) (M M' : List (Nat × Meta)) : Prop := StoredOkBatched S M M' []
+instance (S M M') : Decidable (FlushOk S M M') := inferInstanceAs (Decidable (StoredOkBatched _ _ _ _))
+
+/-! ### a heartbeat held at its first storage write while others are handled -/
+
+inductive GateOut where
+  /-- answered without a storage write -/
+  | done (v : Verdict)
+  /-- stopped immediately before its first storage write -/
+  | parked
+  deriving DecidableEq, Repr
+
+/-- a heartbeat that runs until its first storage write (or to its answer): nothing is written; an error means
+    nothing changed at all; otherwise the served set is the old one or the old one with the region put -/
+def GateOk (H : History) (S : List Region) (M : List (Nat × Meta)) (r : Region) (o : GateOut)
+    (S' : List Region) (M' : List (Nat × Meta)) : Prop :=
+  NoOverlap S' ∧ NoRegress H S' ∧ M' = M ∧
+  (MustReject S r → o = .done .stale) ∧
+  (o = .done .stale → S' = S) ∧
+  (o ≠ .done .stale → S' = S ∨ S' = put S r)
+instance (H S M r o S' M') : Decidable (GateOk H S M r o S' M') :=
+  inferInstanceAs (Decidable (_ ∧ _ ∧ _ ∧ _ ∧ _ ∧ _))
+
+/-- the held heartbeat is let go and answers `v` (other heartbeats may have been handled in between, so its
+    storage writes can be old news – that is not judged): **a heartbeat answered with an error has changed
+    nothing**, neither what is served nor what is stored -/
+def ReleaseOk (H : History) (S : List Region) (M : List (Nat × Meta)) (r : Region) (v : Verdict)
+    (S' : List Region) (M' : List (Nat × Meta)) : Prop :=
+  NoOverlap S' ∧ NoRegress H S' ∧
+  (v = .stale → S' = S ∧ M' = M) ∧
+  (v = .ok → S' = S ∨ S' = put S r)
+instance (H S M r v S' M') : Decidable (ReleaseOk H S M r v S' M') :=
+  inferInstanceAs (Decidable (_ ∧ _ ∧ _ ∧ _))
+
 inductive Ev where
   /-- one heartbeat at a time -/
   | hb (r : Region) (v : Verdict) (S' : List Region) (M' : List (Nat × Meta))
   /-- a batch handled concurrently; storage is only read back, not judged -/
   | conc (hbs : List (Region × Verdict)) (S' : List Region) (M' : List (Nat × Meta))
+  /-- one heartbeat at a time, region storage with a write batch (`M'` = what is on disk) -/
+  | hbBatched (r : Region) (v : Verdict) (S' : List Region) (M' : List (Nat × Meta))
+  | flush (M' : List (Nat × Meta))
+  /-- a heartbeat run up to its first storage write -/
+  | gate (r : Region) (o : GateOut) (S' : List Region) (M' : List (Nat × Meta))
+  /-- … and let go later -/
+  | release (r : Region) (v : Verdict) (S' : List Region) (M' : List (Nat × Meta))
 
 /-- the property over a trace -/
 def Holds : History → List Region → List (Nat × Meta) → List Ev → Prop
   | _, _, _, [] => True
   | H, S, M, .hb r v S' M' :: es => StepOk H S M r v S' M' ∧ Holds (record H S') S' M' es
   | H, S, _, .conc hbs S' M' :: es => ConcOk H S hbs S' ∧ Holds (record H S') S' M' es
+  | H, S, M, .hbBatched r v S' M' :: es => StepOkBatched H S M r v S' M' ∧ Holds (record H S') S' M' es
+  | H, S, M, .flush M' :: es => FlushOk S M M' ∧ Holds H S M' es
+  | H, S, M, .gate r o S' M' :: es => GateOk H S M r o S' M' ∧ Holds (record H S') S' M' es
+  | H, S, M, .release r v S' M' :: es => ReleaseOk H S M r v S' M' ∧ Holds (record H S') S' M' es
 
 def check : History → List Region → List (Nat × Meta) → List Ev → Bool
   | _, _, _, [] => true
   | H, S, M, .hb r v S' M' :: es => decide (StepOk H S M r v S' M') && check (record H S') S' M' es
   | H, S, _, .conc hbs S' M' :: es => decide (ConcOk H S hbs S') && check (record H S') S' M' es
+  | H, S, M, .hbBatched r v S' M' :: es => decide (StepOkBatched H S M r v S' M') && check (record H S') S' M' es
+  | H, S, M, .flush M' :: es => decide (FlushOk S M M') && check H S M' es
+  | H, S, M, .gate r o S' M' :: es => decide (GateOk H S M r o S' M') && check (record H S') S' M' es
+  | H, S, M, .release r v S' M' :: es => decide (ReleaseOk H S M r v S' M') && check (record H S') S' M' es
 
 theorem check_iff (H : History) (S : List Region) (M : List (Nat × Meta)) (es : List Ev) :
     check H S M es = true ↔ Holds H S M es := by
@@ -126,5 +198,9 @@ theorem check_iff (H : History) (S : List Region) (M : List (Nat × Meta)) (es :
     cases e with
     | hb r v S' M' => simp [check, Holds, ih]
     | conc hbs S' M' => simp [check, Holds, ih]
+    | hbBatched r v S' M' => simp [check, Holds, ih]
+    | flush M' => simp [check, Holds, ih]
+    | gate r o S' M' => simp [check, Holds, ih]
+    | release r v S' M' => simp [check, Holds, ih]
 
 end PdModel.Spec.C06
